@@ -22,6 +22,7 @@ DET_K = 3
 CASE_TIMEOUT = 600
 SELFTEST = {'quick': 8, 'thorough': 96}
 TOL = 1e-9
+REQUIRED_PROBES = ['edge_fEq', 'edge_null', 'edge_periodic', 'shift_beyond_domain', 'tiny_shift', 'short_velocity_domain', 'dt_negative', 'iota_nonzero']
 RULE = ('case = (grid sizes, v spline degree 2-5 [3 = uniform-cubic path], constants with rotational '
         'transform zero or not, boundary mode fEq / null / periodic, dt of either sign, random f and a random '
         'real potential whose amplitude spans 6 decades so that shifts range from 0 to beyond the domain, 1-3 '
